@@ -22,6 +22,16 @@ CLAIMED = {
             "string lengths 0..4 (quick) / 0..6 (thorough), FileName 1..4 / 1..6; PseudoURL: 0-2 letter type, 1-2 character file, two pairs; argument vectors of <= 5; "
             "split(input,char) via getline, canonical()/homeFolder() and printed decimal digits are outside; exceeding a path/step/time limit is reported inconclusive",
             "symbolic execution of LLVM IR with z3 (vp/llpath.py) + SMT (ll2smt), native sanitizer replay"),
+    "C16": ("model_checking",
+            "Symbolic execution of the real XML.cpp parser (clang IR -> vp/llpath.py, path-forking executor deciding with z3): for every byte string of the stated "
+            "length - bare and behind prefixes that put the parser into each scanning loop - every feasible path is executed; obligations: returns or throws "
+            "std::runtime_error, every cursor dereference inside the file's bytes plus the terminating NUL, termination; and for documents generated from small "
+            "trees with symbolic names, values and contents the tree read back equals the generating tree. Counterexamples are replayed under ASan/UBSan.",
+            "DESIGN.md 3/C16",
+            "byte strings of length 5 (quick) / 7 (thorough) behind 7 prefixes; generated trees: depth <= 3, <= 2 children, <= 2 properties, names of 1-2 characters, "
+            "1-character values and 1-2 word contents with every admissible byte; readXML's file framing (fopen/fseek/fread) and the writer are outside; "
+            "error-message text (stringstream/iostream) opaque; allocation never fails",
+            "symbolic execution of LLVM IR with z3 (vp/llpath.py), native sanitizer replay"),
     "C15": ("model_checking",
             "Bounded symbolic checking of the real DataStreaming.cpp/.h code: FixedBufferWriter::write/reserve and BufferReader::read/getView "
             "as one step from an arbitrary valid (capacity,cursor) state with the size/count a full 64-bit symbol; typed round trips through "
